@@ -6,6 +6,8 @@
 //     b<n>   response().setbuf(n)            u<0|1> full_asynchronous_buffering
 //     w<n>   write n pattern bytes with ostream::write      p<n>  n pattern bytes with put()
 //     r<hex> write literal bytes             f      flush
+//     W<n>:<c> write n pattern bytes with ostream::write in pieces of c bytes (many small writes)
+//     z<n>:<seed> write n pseudo-random bytes (LCG x = x*1103515245+12345 mod 2^31 from seed, byte = (x>>16)&255): incompressible
 //     h<hexname>:<hexvalue>  set_header      k<hexname>:<hexvalue> set_cookie
 //     l<n>   content_length(n)               c<key> cache().fetch_page(key) (hit: served from cache, script ends) and store_page(key) at the end
 //     s<n>   status(n)
@@ -75,6 +77,12 @@ public:
 			case 'u': response().full_asynchronous_buffering(arg == "1"); break;
 			case 'w': put_pattern(atol(arg.c_str()), false); break;
 			case 'p': put_pattern(atol(arg.c_str()), true); break;
+			case 'W': { size_t c = arg.find(':'); size_t n = atol(arg.substr(0, c).c_str()); size_t piece = atol(arg.substr(c + 1).c_str()); if (piece == 0) piece = 1;
+				while (n > 0) { size_t k = n < piece ? n : piece; put_pattern(k, false); n -= k; } } break;
+			case 'z': { size_t c = arg.find(':'); size_t n = atol(arg.substr(0, c).c_str()); unsigned long x = strtoul(arg.substr(c + 1).c_str(), 0, 10) & 0x7fffffffUL;
+				std::string s; s.reserve(n);
+				for (size_t i = 0; i < n; i++) { x = (x * 1103515245UL + 12345UL) & 0x7fffffffUL; s += char((x >> 16) & 255); }
+				written_ += s; response().out().write(s.data(), s.size()); } break;
 			case 'r': { std::string s = hx::unhex(arg); written_ += s; response().out().write(s.data(), s.size()); } break;
 			case 'f': response().out() << std::flush; break;
 			case 'h': { size_t c = arg.find(':'); response().set_header(hx::unhex(arg.substr(0, c)), hx::unhex(arg.substr(c + 1))); } break;
